@@ -9,7 +9,7 @@ PROP = {
             "9*u*sum|monomials| and the five laws with tolerances accumulated from that bound. Non-trivial: at least 3 non-zero components in both factors (products), "
             "q not within 1e-3 of a coordinate-axis rotation and v != 0 (rotation), a special value present (lanes); distinct = distinct hash of (type, backend, operand words).",
     "builds": {
-        "quick": [B("stable"), B("nightly", 0.25, False)],
+        "quick": [B("stable"), B("fma", 0.25), B("nightly", 0.25, False)],
         "thorough": [B("stable"), B("fma", 0.5), B("nightly", 0.5, False)],
     },
     "volume": {"quick": 10},
